@@ -33,6 +33,7 @@ def evaluate(op, dense, idx, debug):
     try:
         with settings.debug(debug):
             res = op[idx]
+            resop = res if isinstance(res, LinearOperator) else None
             if isinstance(res, LinearOperator):
                 res = res.to_dense()
     except Exception as e:  # noqa
@@ -49,6 +50,20 @@ def evaluate(op, dense, idx, debug):
         return ("viol", "shape", f"got {tuple(res.shape)} want {tuple(exp.shape)}")
     if not torch.allclose(res.to(exp.dtype), exp, rtol=0, atol=1e-6):
         return ("viol", "value", f"max diff {(res.to(exp.dtype) - exp).abs().max().item():g}")
+    # second step: the RESULT operator's own diagonal()/_diagonal() (class-specific fast paths of the result classes)
+    if resop is not None and exp.dim() >= 2 and exp.shape[-1] == exp.shape[-2]:
+        want = exp.diagonal(dim1=-2, dim2=-1)
+        for lab in ("diagonal", "_diagonal"):
+            try:
+                with settings.debug(debug):
+                    got = getattr(resop, lab)()
+            except NotImplementedError:
+                break
+            except Exception as e:  # noqa
+                return ("viol", "result-" + lab + "-raise:" + type(e).__name__, f"{type(resop).__name__}: {str(e)[:150]}")
+            if tuple(got.shape) != tuple(want.shape) or not torch.allclose(got.to(want.dtype), want, rtol=0, atol=1e-6):
+                return ("viol", "result-" + lab, f"{type(resop).__name__}.{lab}() = {got.tolist()} want {want.tolist()}")
+        return ("ok", "twostep")
     return ("ok",)
 
 
@@ -248,6 +263,38 @@ def kind_tuples(rng, d, tier):
 # ----------------------------------------------------------------------------------------------
 
 
+def twostep_indices(rng, shape, tier):
+    """concrete (kinds, idx): rows and columns selected DIFFERENTLY but with equal length, so that the result is a
+    square operator of a (possibly) different class whose own _diagonal is then checked"""
+    d = len(shape)
+    R, Cn = shape[-2], shape[-1]
+    out = []
+    for _ in range(6 if tier == "quick" else 20):
+        L = rng.randrange(2, min(R, Cn) + 1) if min(R, Cn) >= 2 else 1
+        a, b = rng.randrange(0, R - L + 1), rng.randrange(0, Cn - L + 1)
+        form = rng.randrange(4)
+        if form == 0:
+            r_it, c_it, rk, ck = slice(a, a + L), slice(b, b + L), "slice", "slice"
+        elif form == 1:
+            r_it, c_it, rk, ck = torch.tensor([rng.randrange(R) for _ in range(L)]), slice(b, b + L), "t1", "slice"
+        elif form == 2:
+            r_it, c_it, rk, ck = slice(a, a + L), [rng.randrange(Cn) for _ in range(L)], "slice", "list"
+        else:
+            r_it = slice(a, None) if a + L == R else slice(a, a + L)
+            c_it = slice(None, L) if rng.random() < 0.5 else slice(b, b + L)
+            rk, ck = "slice", "slice"
+        bk, bi = [], []
+        for n in shape[:-2]:
+            k = rng.choice(["full", "full", "int", "slice"])
+            bk.append(k)
+            bi.append(C.gen_item(rng, k, n, 2))
+        if rng.random() < 0.3 and d > 2 and all(k == "full" for k in bk):
+            out.append((["ell", rk, ck], (Ellipsis, r_it, c_it)))
+        else:
+            out.append((bk + [rk, ck], tuple(bi) + (r_it, c_it)))
+    return out
+
+
 def instances(rng, tier):
     g = C.Gen(rng)
     for name, b, meta in C.catalogue():
@@ -270,6 +317,8 @@ def run_case(chk, name, batch, meta, op, dense, kinds, idx, lean):
         r = evaluate(op, dense, idx, debug)
         chk.case(desc + f" debug={debug}", nontrivial=(r[0] == "ok" and dense[idx].numel() > 1))
         chk.count("outcome:" + r[0])
+        if len(r) > 1 and r[0] == "ok":
+            chk.count("twostep-result-diagonal-checked")
         if r[0] == "viol":
             cell = cell_id(name, batch, nk, tg, debug)
             chk.violation(cell, f"{name} batch={batch} op[{C.describe_index(idx)}] debug={debug}: {r[1]} {r[2]}",
@@ -339,6 +388,8 @@ def run(chk):
                 continue
             run_case(chk, name, batch, meta, op, dense, kinds, idx, {"opseed": opseed})
             lean.add_index_case(shape, idx)
+        for kinds, idx in twostep_indices(chk.rng, shape, chk.tier):
+            run_case(chk, name, batch, meta, op, dense, kinds, idx, {"opseed": opseed})
         lean.add_class_cases(name, meta, op, dense, chk.rng)
     lean.add_helper_cases(chk.rng)
     lean.flush()
